@@ -131,8 +131,14 @@ def rule_r1(chk, p, t):
     sc = p.func(f"{ORB}.utils.singularityCheck")
 
     def f2():
-        cr = _case_returns(sc, {"inclined"}, {"eccentric"})
-        defs = single_defs(sc.node)
+        # path-wise: on every path the returned triple with the path's assignments substituted; the case a path belongs to
+        # is read off its conditions (flat guards, nested branches and result variables alike)
+        from rsa.terms import NotEvaluable, returned_exprs
+
+        try:
+            paths = returned_exprs(sc)
+        except NotEvaluable as e:
+            raise Undecided(f"singularityCheck: {e}", sc.node)
         raan, argp, anom = sc.params[2], sc.params[3], sc.params[4]
         want = {
             (True, True): (raan, argp, anom),
@@ -141,28 +147,39 @@ def rule_r1(chk, p, t):
             (False, False): (None, None, f"{anom} + {argp} + {raan}"),
         }
         bad = []
-        for case in CASES:
-            rts = sorted(set(cr.get(case, [])), key=lambda n: n.lineno)
-            if not rts:
-                bad.append(f"case {case} has no return")
+        seen_cases = set()
+        for tup, conds in paths:
+            # the flags are locals bound to isInclined(inc) / isEccentric(ecc): after substitution the conditions are
+            # those calls
+            inc, ecc = _case_of(conds, {"inclined"}, {"eccentric"})
+            if inc == "infeasible":
                 continue
-            tup = rts[0].ast.value
+            if inc is None or ecc is None:
+                # a path that does not test both flags covers several cases: judged for each case it can belong to
+                cases = [(i, e_) for i in ((True, False) if inc is None else (inc,)) for e_ in ((True, False) if ecc is None else (ecc,))]
+            else:
+                cases = [(inc, ecc)]
             if not (isinstance(tup, ast.Tuple) and len(tup.elts) == 3):
-                bad.append(f"case {case} does not return three angles")
+                bad.append(f"a path of case(s) {cases} does not return three angles")
                 continue
-            for slot, w in zip(tup.elts, want[case]):
-                v = defs.get(slot.id, slot) if isinstance(slot, ast.Name) else slot
-                if w is None:
-                    if not _is_zero(v):
-                        bad.append(f"case (inclined={case[0]}, eccentric={case[1]}): `{unparse(slot)}` should be 0.0")
-                else:
-                    ok = isinstance(v, ast.Call) and call_name(v) == "wrapAngle2Pi" and canon(v.args[0]) == canon(ast.parse(w, mode="eval").body)
-                    if not ok:
-                        bad.append(f"case (inclined={case[0]}, eccentric={case[1]}): `{unparse(v)}` should be wrapAngle2Pi({w})")
+            for case in cases:
+                seen_cases.add(case)
+                for v, w in zip(tup.elts, want[case]):
+                    if w is None:
+                        if not _is_zero(v):
+                            bad.append(f"case (inclined={case[0]}, eccentric={case[1]}): `{unparse(v)}` should be 0.0")
+                    else:
+                        ok = isinstance(v, ast.Call) and call_name(v) == "wrapAngle2Pi" and canon(v.args[0]) == canon(ast.parse(w, mode="eval").body)
+                        if not ok:
+                            bad.append(f"case (inclined={case[0]}, eccentric={case[1]}): `{unparse(v)}` should be wrapAngle2Pi({w})")
+        for case in CASES:
+            if case not in seen_cases:
+                bad.append(f"case {case} has no return")
+        bad = sorted(set(bad))
         if bad:
             r.violation(sc.qualname, "cases:" + ";".join(bad), "singularityCheck case split: " + "; ".join(bad), sc.loc())
         else:
-            r.ok(sc.qualname, "four cases; merged angles wrapped into their slots", sc.loc(), obligations=12)
+            r.ok(sc.qualname, "four cases; merged angles wrapped into their slots (path-wise)", sc.loc(), obligations=12)
 
     r.guard(sc.qualname, f2)
     # ---- ClassicalElements.fromConfig
